@@ -629,13 +629,13 @@ impl ErrorDiagnostic for ResolverDiagnostic<'_, RuntimeError> {
                             &file.source()[span.start.as_usize()..span.end.as_usize()];
                         // " = {}: " => 5 character + the size of the idx in base 10
                         let target_width = 120 - 5 - (i + 1).ilog10() as usize;
-                        let last_char_idx = error_cause
+                        let end_idx = error_cause
                             .char_indices()
                             .take(target_width)
-                            .map(|(i, _)| i)
+                            .map(|(i, c)| i + c.len_utf8())
                             .last()
                             .unwrap_or_default();
-                        let error_cause = &error_cause[..=last_char_idx].replace('\n', "\\n");
+                        let error_cause = &error_cause[..end_idx].replace('\n', "\\n");
 
                         format!("{i}: {error_cause}\n\tat {fn_name} - {file_name}:{line}:{col}")
                     },
